@@ -213,6 +213,71 @@ def make_e_resolve(params, part, nparts):
     return h
 
 
+# ---------------------------------------------------------------------------
+# twins: two distinct interface objects with the same (__name__, __module__) - as after a module reload -
+# swapped for each other by re-basing; interfaces compare equal by name, so "did my resolution order change?"
+# answered with == instead of identity goes wrong exactly here
+# ---------------------------------------------------------------------------
+
+TW_NAMES = ['R', 'R', 'M', 'L', 'Rt', 'Z']
+TW_SHAPE = [(), (), (0,), (2,), (2,), (3, 4)]
+TW_OPS = [(2, (0,)), (2, (1,)), (2, ()), (3, (2,)), (3, (0,)), (3, (1,)), (4, (2,)), (4, (1,)), (5, (3, 4)), (5, (3,)), (5, (4, 3))]
+
+
+def _tw_reach(shape, i):
+    seen, stack = set(), [i]
+    while stack:
+        x = stack.pop()
+        if x not in seen:
+            seen.add(x)
+            stack.extend(shape[x])
+    return seen
+
+
+def tw_valid(rebases):
+    cur = list(TW_SHAPE)
+    for (node, nb) in rebases:
+        cur[node] = nb
+        for i in range(len(cur)):
+            r = _tw_reach(cur, i)
+            if 0 in r and 1 in r:
+                return False      # both twins in one hierarchy: outside the scope (they collide as dictionary keys)
+    return True
+
+
+def run_twin_case(states, rebases):
+    from zope.interface import Interface
+    from zope.interface.interface import InterfaceClass
+    mod = U.fresh_module_name()
+    ifaces = []
+    for i, bases in enumerate(TW_SHAPE):
+        b = tuple(ifaces[j] for j in bases) or (Interface,)
+        ifaces.append(InterfaceClass(TW_NAMES[i], b, _mk_attrs(i, states[i]), __module__=mod))
+    check_all(ifaces, states, 'twins initial')
+    hist = []
+    for (node, nb) in rebases:
+        ifaces[node].__bases__ = tuple(ifaces[j] for j in nb) or (Interface,)
+        hist.append('%s.__bases__=%s' % (TW_NAMES[node] + ('' if node != 1 else "'"), [TW_NAMES[j] + ("'" if j == 1 else '') for j in nb]))
+        check_all(ifaces, states, "twins (R and R' are distinct interfaces with the same name and module) after %s" % '; '.join(hist))
+
+
+def make_e_twins(params, part, nparts):
+    L = params['L']
+    NO = len(TW_OPS)
+
+    def h(sm: int, n: int, o1: int, o2: int, o3: int):
+        c1 = pick(o1, NO)
+        assume(c1 % nparts == part)
+        ln = pick(n, L) + 1
+        idx = [c1] + [pick(o, NO) for o in (o2, o3)[:ln - 1]]
+        rebases = [TW_OPS[i] for i in idx]
+        assume(tw_valid(rebases))
+        states = (1, 2, pick(sm, 3), 0, 0, 0)
+        reached((states, tuple(idx)), dict(states=list(states), rebases=[[a, list(b)] for a, b in rebases]))
+        native(run_twin_case, states, rebases)
+    return h
+
+
 _ENC = ['zope.interface.interface:Specification.get', 'zope.interface.interface:InterfaceClass.names',
         'zope.interface.interface:InterfaceClass.namesAndDescriptions', 'zope.interface.interface:InterfaceClass.__iter__',
         'zope.interface.interface:InterfaceClass.__contains__', 'zope.interface.interface:InterfaceClass.getDescriptionFor',
@@ -238,6 +303,15 @@ HARNESSES = [
                    '(acyclic: new bases among lower-indexed nodes), all accessors called before and after each step (warm _v_attrs)',
             outside='cyclic rebasing; histories longer than 2',
             oracle='as e_resolve after every step; final __iro__ equals a freshly built graph of the final shape'),
+    Harness('e_twins', make_e_twins, kind='E', impls=('py',),
+            tiers=dict(quick=dict(budget_s=100, parts=11, params=dict(L=3)),
+                       thorough=dict(budget_s=300, parts=11, params=dict(L=3))),
+            encoded=_ENC,
+            bounds="roots R and R' (distinct interfaces with identical name and module, different definitions), M(R), L(M), Rt(M), Z(L,Rt); M "
+                   "defines nothing / an attribute / a method; every history of <=3 re-basings from 11 that swap one root for the other "
+                   "at M, L or Rt or re-order Z's bases; all accessors of all six interfaces before and after every step",
+            outside="hierarchies that contain both same-named interfaces at once (they collide as dictionary keys; not a supported configuration)",
+            oracle='as e_resolve after every step (objects identified by identity, never by name)'),
 ]
 
 MANIFEST = {
